@@ -1002,4 +1002,31 @@ theorem intKeys_sorted {V} (kv : List (Bits × V)) (h : kv.Pairwise (fun a b => 
       · exact hacc a ha b (by simp [hb])
       · simp at ha; subst ha; exact h.1 b hb
 
+/-! ### augmented parser, API level -/
+theorem validAug_len {X Y : Type} {D : AugDec X Y} {p n c kv ex} (h : ValidAug D p n c kv ex) : ∀ q ∈ kv, q.1.length = n := by
+  induction h with
+  | leaf _ hn _ _ => intro q hq; simp at hq; subst hq; exact hn
+  | fork _ hn _ _ _ ihl ihr =>
+    intro q hq
+    simp only [List.mem_append, List.mem_map] at hq
+    rcases hq with ⟨a, ha, rfl⟩ | ⟨a, ha, rfl⟩
+    · have := ihl a ha; simp [pre, this]; omega
+    · have := ihr a ha; simp [pre, this]; omega
+  | pruned _ => intro q hq; simp at hq
+
+theorem parseHashmapAug_valid {X Y : Type} {D : AugDec X Y} {p : Bool} {n : Nat} {bits refs} {kv : List (Bits × X)} {ex : List Y}
+    (hn : 0 < n) (h : ValidAug D p n (.mk (-1) bits refs) kv ex) :
+    (match parseHashmapAug D (.mk (-1) bits refs) n with | .dict r => r = (intKeys kv, ex) | _ => False) := by
+  have hp := parseAugEdge_valid h []
+  rw [map_pre_nil] at hp
+  have hne : kv.any (fun p => p.1.isEmpty) = false := by
+    rw [List.any_eq_false]
+    intro q hq
+    have := validAug_len h q hq
+    cases hq1 : q.1 with
+    | nil => rw [hq1] at this; simp at this; omega
+    | cons a t => simp
+  simp [parseHashmapAug, hp, hne]
+
+
 end TonVerif.Proofs.Hashmap
